@@ -391,6 +391,51 @@ def special_descriptors(chk):
     return n
 
 
+# aggregates passed in the VARIABLE part of a variadic call, where the call is the first use of the type in the unit (no definition
+# or prototype has described it before): the argument must still be passed as the aggregate type, defined before the call
+# (seeded round 10: the types of a call taken from the prototype only)
+VARIADIC_AGGREGATES = [
+    ('two-doubles', 'struct va%d { double x, y; }'), ('int-float', 'struct va%d { int i; float f; }'), ('union-long-double', 'union va%d { long l; double d; }'),
+    ('char-array-3', 'struct va%d { char c[3]; }'), ('large', 'struct va%d { long a[5]; }'), ('nested', 'struct va%d { struct { short s; char c; } in; double d; }'),
+    ('bit-fields', 'struct va%d { int a : 3; unsigned b : 9; }'), ('float-only', 'struct va%d { float f; }'), ('pointer-pair', 'struct va%d { void *p; char *q; }'),
+    ('union-of-structs', 'union va%d { struct { float a, b; } f; struct { int i, j; } n; }'),
+]
+
+
+def variadic_aggregates(chk):
+    srv = fs.server('fs')
+    n = 0
+    forms = (('direct', 'int vf(int, ...);\nint user(%(t)s *p) { return vf(1, *p); }\n'),
+             ('direct-second-variable-argument', 'int vf(int, ...);\nint user(%(t)s *p) { return vf(1, 2.5, *p); }\n'),
+             ('through-member-pointer', 'struct ops { int (*log)(const char *, ...); } o;\nint user(%(t)s *p) { return o.log("x", *p); }\n'),
+             ('no-named-parameter', 'int v0(...);\nint user(%(t)s *p) { return v0(*p); }\n'),
+             ('two-aggregates', 'int vf(int, ...);\nint user(%(t)s *p, %(t)s *q) { return vf(2, *p, *q); }\n'),
+             ('object-not-dereference', 'int vf(int, ...);\nint user(void) { %(t)s v = {0}; return vf(1, v); }\n'))
+    for i, (name, decl) in enumerate(VARIADIC_AGGREGATES):
+        tag = (decl % i).split('{')[0].strip()
+        for fname, form in forms:
+            unit = decl % i + ';\n' + form % dict(t=tag)
+            for t in TARGETS:
+                n += 1
+                r = srv.compile(unit, target=t, cpu_s=30)
+                if r.status != 0:
+                    chk.violation('structural/variadic-aggregate/rejected', '%s/%s rejected on %s: %s' % (name, fname, t, r.err[:200]), files={'input.c': unit.encode()})
+                    continue
+                m = ilparse.parse(r.out)
+                f = [x for x in m.funcs if x.name == '$user']
+                calls = [ins for b in f[0].blocks for ins in b.insts if ins.op == 'call'] if f else []
+                if len(calls) != 1:
+                    chk.violation('structural/variadic-aggregate/no-call', '%s/%s on %s: %d calls' % (name, fname, t, len(calls)), files={'input.c': unit.encode()})
+                    continue
+                tys = [a[0] for a in calls[0].callargs]
+                want = 2 if fname == 'two-aggregates' else 1
+                agg = [x for x in tys if x.startswith(':')]
+                if len(agg) != want or any(ilparse.type_layout(m, x) is None for x in agg):
+                    chk.violation('structural/variadic-aggregate/not-passed-as-aggregate', '%s (%s) as variable argument, %s, on %s: the call passes %r' % (tag, name, fname, t, tys),
+                                  files={'input.c': unit.encode()}, cmd='$CPROC_QBE -t %s input.c | grep "call\\|^type"' % t)
+    return n
+
+
 # scalar parameter and return classes: definitions, prototyped calls, calls through pointers, unprototyped-style (variadic) calls.
 # (type spelling, class in a signature, class after the default argument promotions, value expression)
 SCALARS = [
@@ -541,6 +586,7 @@ def main(chk):
     nstruct = structural(chk, shp)
     nscalar = scalar_signatures(chk)
     nstruct += special_descriptors(chk)
+    nstruct += variadic_aggregates(chk)
     cov = {
         'evaluations': nlines + nstruct + nscalar,
         'scalar_signature_checks': nscalar,
